@@ -4,7 +4,7 @@
 # violation here is a false alarm unless the change breaks that *other* property (listed in EXPECTED below).
 # Output: one line per (patch, alarm). /repo must be clean; the /repo lock is held per patch.
 cd /verif
-declare -A EXPECTED=( ["benign/C17/3/patch.diff:C20"]="AT_RANDOM bytes: genuine non-determinism (C20)" ["benign/C09/2/patch.diff:C08"]="accesses may span adjacent areas: C08 says an access past the end of its area fails" )
+declare -A EXPECTED=( ["benign/C17/3/patch.diff:C20"]="AT_RANDOM bytes: genuine non-determinism (C20)" ["benign/C17/3/patch.diff:C11"]="AT_RANDOM bytes: the twin machines of execute() and step* differ in memory (same root cause as C20)" ["benign/C09/2/patch.diff:C08"]="accesses may span adjacent areas: C08 says an access past the end of its area fails" )
 LIST="${@:-$(ls benign/C*/*/patch.diff benign/hand/*.diff)}"
 for P in $LIST; do
   OUT=$(AXVERIF_CASES_DIV=3 tools/eval_mutant.sh $P C01 C02 C03 C04 C05 C06 C07 C08 C09 C10 C11 C12 C13 C14 C15 C16 C17 C18 C19 C20 2>&1)
